@@ -38,6 +38,7 @@ RULE += " Added after the seeded rounds: " + 'A case may reach its electorate th
 RULE += " Voters whose PERMIT reply cannot be converted into a ballot (confidence 'high' / None) are failed voters; 1/25 of the histories cast 1001 earlier votes (bound of the vote history)."
 RULE += ' S10 mirror image: under the default / >= 1/2 thresholds of the non-count strategies a ballot and its mirror (every PERMIT and BLOCK exchanged) cannot both be PERMIT (decisions within 1e-9 of the threshold left alone).'
 RULE += " An EmergencyQuorum switched to an ordinary strategy with set_strategy() is held to that strategy's criterion (generated 1/8 of the non-emergency cases; enumerated for every two-way ballot of 5..9 voters x 6 strategies)."
+RULE += " Round 7: a `decoy` quorum (0..7 agents, its own strategy / threshold, ordinary or emergency, idle or voting) may be constructed in the same process between building the quorum under test and its vote: a decision depends on its own electorate only."
 
 # BADCONF / BADCONF_NONE: the voter answers PERMIT but its reply cannot be converted into a ballot (confidence "high" / None): a failed voter
 KINDS = ["PERMIT", "EXECUTE", "BLOCK", "UNKNOWN", "DEFER", "FAILURE", "RAISE", "BADCONF", "BADCONF_NONE"]
@@ -76,8 +77,13 @@ def _case(draw):
     from_em = False
     if not emergency and hist is None and draw(st.integers(0, 7)) == 0:
         from_em, mv = True, 1          # EmergencyQuorum fixes min_voters at 1
+    decoy = None
+    if draw(st.integers(0, 3)) == 0:
+        # another quorum alive in the same process, built (and possibly voting) after the one under test: its size, strategy and threshold are its own
+        decoy = {"n": draw(st.integers(0, 7)), "emergency": draw(st.booleans()), "strategy": draw(st.integers(0, 6)), "threshold": draw(st.sampled_from([None, 0.1, 0.5, 1, 2])),
+                 "ballot": draw(st.sampled_from(["none", "none", "permit", "block", "mixed"]))}
     return {"emergency": emergency, "strategy": strat, "threshold": thr, "min_voters": mv, "voters": voters, "hist": hist, "exc": draw(st.integers(0, 11)),
-            "from_emergency": from_em}
+            "from_emergency": from_em, "decoy": decoy}
 
 
 def strategy(tier):
@@ -121,6 +127,11 @@ def _two_way_ballots():
             yield {"emergency": True, "strategy": 6, "threshold": 0.3, "min_voters": 1, "voters": [list(v) for v in voters]}
             for s in range(6):
                 yield {"emergency": False, "from_emergency": True, "strategy": s, "threshold": None, "min_voters": 1, "voters": [list(v) for v in voters]}
+            for dn in (0, 2, 3):
+                for dem in (False, True):
+                    dec = {"n": dn, "emergency": dem, "strategy": 6, "threshold": None if not dem else 0.3, "ballot": "none"}
+                    yield {"emergency": False, "strategy": 6, "threshold": None, "min_voters": 1, "voters": [list(v) for v in voters], "decoy": dec}
+                    yield {"emergency": True, "strategy": 6, "threshold": 0.3, "min_voters": 1, "voters": [list(v) for v in voters], "decoy": dec}
 
 
 class _Stub:
@@ -161,9 +172,26 @@ def _run(case, voters, hist=None):
         first = getattr(VotingStrategy, STRATS[detour]) if detour is not None else final_strat
         q = QuorumSensing(n_agents=0, budget=budget, strategy=first, threshold=None if detour is not None else case["threshold"],
                           min_voters=case["min_voters"], silent=True)
+    def decoy():
+        dc = case.get("decoy")
+        if not dc:
+            return
+        if dc["emergency"]:
+            other = EmergencyQuorum(n_agents=dc["n"], budget=ATP_Store(1000, silent=True), silent=True, **({} if dc["threshold"] is None else {"emergency_threshold": dc["threshold"]}))
+        else:
+            other = QuorumSensing(n_agents=dc["n"], budget=ATP_Store(1000, silent=True), strategy=getattr(VotingStrategy, STRATS[dc["strategy"]]), threshold=dc["threshold"], silent=True)
+        if dc["ballot"] != "none":
+            for prof_, k_ in zip(other.colony, itertools.cycle({"permit": ["PERMIT"], "block": ["BLOCK"], "mixed": ["PERMIT", "BLOCK", "UNKNOWN"]}[dc["ballot"]])):
+                prof_.agent = _Stub(prof_.agent.name if hasattr(prof_.agent, "name") else "d", k_, 1)
+            try:
+                other.run_vote("decoy proposal")
+            except Exception:  # noqa: BLE001 - the decoy's own configuration may be one the library refuses; only its existence matters
+                pass
+
     if not hist:
         for i, (kind, w, c) in enumerate(voters):
             q.colony.append(AgentProfile(agent=_Stub("v%d" % i, kind, c), weight=w))
+        decoy()
         return q.run_vote("proposal")
 
     def add(i, kind, w, c):
@@ -193,6 +221,7 @@ def _run(case, voters, hist=None):
         q.set_strategy(final_strat, case["threshold"])
     if hist.get("pre_stats"):
         q.get_statistics()
+    decoy()
     return q.run_vote("proposal")
 
 
